@@ -15,6 +15,8 @@ import (
 	"time"
 
 	"github.com/miekg/dns"
+
+	"verif/harness/pbt"
 )
 
 // parserCfg is one parser configuration.
@@ -279,9 +281,37 @@ type outcome struct {
 
 const keepRecords = 1000
 
-// watchdog is far above any legitimate cost (the slowest legitimate inputs, several maximal
-// $GENERATE ranges, take about a second).
+// The watchdog is far above any legitimate cost: 20 s for small inputs (they parse in
+// milliseconds), plus 2 s per $GENERATE in the files (65 536 records take well under 0.1 s each
+// time) and 2 s per 64 KiB of text; the old flat 120 s remain the value for NewRR.
 var watchdog = 120 * time.Second
+
+func watchdogFor(files map[string]string) time.Duration {
+	d := 20 * time.Second
+	for _, t := range files {
+		d += time.Duration(countGenerate(t))*2*time.Second + time.Duration(len(t)/65536)*2*time.Second
+	}
+	if d > 300*time.Second {
+		d = 300 * time.Second
+	}
+	return d
+}
+
+// hangSeen is set when a watchdog fired during the current case: such a violation is reported as
+// it is (pbt.NoShrink) - every further execution would leave another spinning goroutine behind.
+var hangSeen bool
+
+// noShrink wraps a check so that a violation caused by a hang is not shrunk.
+func noShrink[C any](f func(C) error) func(C) error {
+	return func(c C) error {
+		hangSeen = false
+		err := f(c)
+		if err != nil && hangSeen {
+			return pbt.NoShrink{Err: err}
+		}
+		return err
+	}
+}
 
 var lineRe = regexp.MustCompile(` at line: (\d+):(\d+)$`)
 
@@ -466,13 +496,15 @@ func runParser(files map[string]string, cfg parserCfg, perRecord func(dns.RR)) (
 	}()
 
 	var res result
+	wd := watchdogFor(files)
 	select {
 	case res = <-done:
-	case <-time.After(watchdog):
+	case <-time.After(wd):
+		hangSeen = true
 		buf := make([]byte, 1<<20)
 		buf = buf[:runtime.Stack(buf, true)]
 		if strings.Contains(string(buf), "miekg/dns") {
-			return &outcome{}, fmt.Errorf("parse did not finish within %v (input %d octets); goroutines:\n%s", watchdog, len(top), buf)
+			return &outcome{}, fmt.Errorf("parse did not finish within %v (input %d octets); goroutines:\n%s", wd, len(top), buf)
 		}
 		return &outcome{}, fmt.Errorf("harness: watchdog fired but no goroutine is inside the library")
 	}
